@@ -445,6 +445,12 @@ func (d *fastslowRun) corpus() {
 			}
 		}
 	}
+	// extension-map shapes (empty-list entries vs populated entries): Equal of this build's path vs
+	// the reflection algorithm vs content vs deterministic bytes, all ordered pairs
+	sub := c.Fork() // one draw in parent and child alike; only the parent enumerates
+	if d.child == nil {
+		equalExtShapes(sub, "C08", "goproto.proto.test.TestAllExtensions", nil)
+	}
 	// FWC1 witness: oneof_required (second member of the oneof) = an empty TestRequired
 	if t := find("goproto.proto.test.TestOneofWithRequired"); t != nil {
 		before := c.stats["known_FWC1"]
